@@ -185,8 +185,16 @@ func Main(args []string) {
 		if prop == "C12" {
 			// H;R;K vs H;K: one pair per case that has a read-only invocation followed by something
 			for _, c := range cases {
+				laterInvoke := func(i int) bool {
+					for _, o := range c.Ops[i+1:] {
+						if o.Kind == "invoke" {
+							return true
+						}
+					}
+					return false
+				}
 				for i, op := range c.Ops {
-					if op.Kind == "invoke" && i < len(c.Ops)-1 {
+					if op.Kind == "invoke" && laterInvoke(i) {
 						switch op.Mode {
 						case "dry", "status", "listjson", "list", "summary":
 							if c.Drop < 0 {
